@@ -179,6 +179,48 @@ CLAIMED = {
          "discharged for the model in Coq (the ancilla blocks are proved disjoint and consecutive in C02_sequence); the "
          "multi-constraint workflows are covered by the correspondence run and the enumeration oracle.",
     technique="Coq proof (exchange argument over penalties, composed with the C01 and C02 theorems) + model/implementation correspondence", ref="§5 C08"),
+ "C11": dict(
+    text="Coq theorems about the Gallina transcription of both C kernels and of the Python front end's packaging: "
+         "C11_quso_kernel / C11_puso_kernel (a call returns exactly n results; every state has one entry in {+1,-1} per spin; "
+         "the reported value equals the model's energy at the returned state -- for every schedule, initial state, visiting "
+         "order, seed and table of exp values), C11_value_with_offset (kernel value + offset = the enumerated model at the "
+         "state), C11_package (one labelled state per result through the reverse mapping), C11_arrays (the arrays built from "
+         "a valid quadratic model are well formed). Tied to /repo by bit-exact comparison of whole calls (PCG32 on N, "
+         "exact rational energies, exp decided against 60-digit enclosures) of the four annealers built from /repo's C "
+         "sources, on dict / labelled / Matrix inputs, plus an implementation-side oracle of the property.",
+    note="Trusted: Coq kernel + vm_compute; no axioms; hand-written model of _anneal.py and of the C kernels; mpmath enclosures "
+         "of exp; gcc build of the extension from /repo sources; harness. The facts that the prepared model of a labelled "
+         "input is valid for its N (keys < N, distinct) are hypotheses of the kernel theorems (qvalid, NoDup), established "
+         "by C14/C04 theorems for the relabelling and checked on every case by the correspondence. res.best is C13's theorem.",
+    technique="Coq proof (invariants over the kernel loops) + bit-exact model/implementation correspondence", ref="§5 C11"),
+ "C12": dict(
+    text="Coq theorems: both kernels ARE the single-spin Metropolis chain with the model's exact energy differences, step for "
+         "step and with the same random stream, for whole anneals, any schedule and both visiting orders (C12_quso_refines, "
+         "C12_puso_refines); the quadratic kernel's cached differences are exact (C12_quso_exact_dE) and stay exact across "
+         "every accepted flip (C12_cache: the incremental update, using symmetry and absence of self couplings of the arrays); "
+         "the general kernel's subgraph sum is the exact difference (C12_puso_exact_dE); at temperature zero no step raises "
+         "the energy and an in-order sweep flips spin j exactly when that does not raise it, without drawing random numbers "
+         "(C12_zero_descent, C12_zero_inorder); acceptance rule (C12_accept_downhill / C12_accept_uphill against enclosures of "
+         "exp(-dE/T)); random index in range. A model run is a function of its arguments, so reproducibility is inherited "
+         "through the bit-exact correspondence (seeded calls are repeated and compared).",
+    note="Trusted: as C11. The distributional claim is carried as trace refinement: for every random stream the kernels "
+         "compute the Metropolis chain driven by that stream; that PCG32's outputs are uniform is not a theorem. exp() is "
+         "outside the model (decisions within 2^-40 of the boundary make a run 'unknown', never guessed).",
+    technique="Coq proof (refinement of both kernels to a Metropolis chain specification; cache invariant) + bit-exact correspondence", ref="§5 C12"),
+ "C17": dict(
+    text="Coq lemmas for the index arithmetic of the kernels (flat arrays + row starts): every access arr[index[i]+j], j < num[i], "
+         "is inside the allocated block and reads entry j of row i (C17_flat_access, C17_row_start); neighbours read from "
+         "neighbors[] and labels read from terms[] are valid positions of the per-spin arrays (C17_quso_access with "
+         "C17_arrays, C17_puso_access); the picked spin and the result block index are in range (C17_picked_index, "
+         "C17_states_block); the state keeps its length and +-1 entries through an anneal. The list of ALL array accesses "
+         "and allocations of the C sources is regenerated from /repo on every run and must be covered by "
+         "coq/c_access_table.json (each row names its lemma). Undefined behaviour that no Gallina model can exhibit is "
+         "observed by running the generated call sequences, in one process, through an ASan+UBSan build of the extension "
+         "rebuilt from /repo, comparing with fresh calls; crashes of the plain build are caught in child processes.",
+    note="PARTIAL by nature: the theorems are about a transcription of the index arithmetic, not about the machine code; freed / "
+         "uninitialised memory, signed overflow and interpreter state are covered by the sanitizer oracle on the explored "
+         "call sequences only. Trusted: Coq kernel; clang ASan/UBSan runtime; the access extractor (regex over the C sources).",
+    technique="Coq proof (index bounds of the flat-array layout) + access table regenerated from the C sources + sanitizer oracle", ref="§5 C17"),
 }
 NA_REASON = "check not built yet in this round; see DESIGN.md §8 (order of work)"
 
